@@ -158,6 +158,34 @@ def h_buffers(ctx, cmd, transports=True):
         _transports(ctx, c, direction, length)
 
 
+def h_fresh_buffers(ctx, cmd, size):
+    """two commands never share a buffer, whatever its size, and a new data-in buffer is zero-filled"""
+    spec = L.CDB[cmd]
+    st = "sbc" if "sbc" in spec["sets"] else list(spec["sets"])[0]
+    opcode = K.lookup_opcode(spec, st)
+    a, e = K.concrete_args(spec)
+    kind = spec["data"]
+    if kind[:2] == ("in", "alloc"):
+        a[kind[2]] = min(size, (1 << L.width(spec["fields"][kind[2]])) - 1)
+    elif kind[:2] == ("in", "blocks"):
+        e["blocksize"], a["tl"] = 512, max(1, size // 512)
+    c1 = K.build(spec, opcode, a, e)
+    n = len(c1.datain)
+    fill = ctx.int("fill", 8, lo=1)
+    if n:
+        c1.datain[0] = fill
+        c1.datain[n - 1] = fill
+    c2 = K.build(spec, opcode, a, e)
+    ctx.check("two commands have distinct cdb objects", c1.cdb is not c2.cdb)
+    if n:
+        ctx.check("two commands never share a data-in buffer (size %d)" % n, c1.datain is not c2.datain)
+        ctx.check("a new data-in buffer is zero-filled", (c2.datain[0] == ctx.oracle(0)) & (c2.datain[n - 1] == 0))
+        c2.datain[0] = 0
+        ctx.check("filling one command's buffer leaves the other's alone", c1.datain[0] == ctx.oracle(fill))
+    if len(c1.dataout) and not (kind[1:2] in (("caller",), ("caller-ndob",))):
+        ctx.check("two commands never share a data-out buffer", c1.dataout is not c2.dataout)
+
+
 def h_ws16_ndob(ctx):
     """WRITE SAME(16) with NDOB=1 announces no data-out buffer: an empty byte buffer is required"""
     spec = L.CDB["WRITE SAME(16)"]
@@ -243,6 +271,9 @@ def obligations(tier):
             continue
         obs.append(Ob("buffers/%s" % cmd, MOD, "h_buffers", {"cmd": cmd}))
     obs.append(Ob("buffers/WRITE SAME(16)/ndob", MOD, "h_ws16_ndob", {}))
+    for cmd in ("READ(10)", "READ(16)", "INQUIRY", "REPORT LUNS", "READ ELEMENT STATUS", "GET LBA STATUS", "MODE SENSE(10)"):
+        for size in (1, 4096, 65535, 65536, 1 << 20):
+            obs.append(Ob("fresh-buffers/%s/size=%d" % (cmd, size), MOD, "h_fresh_buffers", {"cmd": cmd, "size": size}))
     return obs
 
 
